@@ -135,6 +135,35 @@ def canonicalise_repo(repo):
     for node in ast.walk(m.tree):
       if not isinstance(node, ast.Call):
         continue
+      # f(*(a, b)) is f(a, b);  f(**{'k': v}) is f(k=v)
+      if any(isinstance(a, ast.Starred) and isinstance(a.value, (ast.Tuple, ast.List)) and not any(isinstance(x, ast.Starred) for x in a.value.elts)
+             for a in node.args):
+        flat = []
+        for a in node.args:
+          if isinstance(a, ast.Starred) and isinstance(a.value, (ast.Tuple, ast.List)) and not any(isinstance(x, ast.Starred) for x in a.value.elts):
+            flat += a.value.elts
+          else:
+            flat.append(a)
+        node.args = flat
+        for a in flat:
+          a._parent = node
+        n += 1
+      if any(k.arg is None and isinstance(k.value, ast.Dict) and k.value.keys and all(isinstance(x, ast.Constant) and isinstance(x.value, str) and x.value.isidentifier()
+                                                                                     for x in k.value.keys) for k in node.keywords):
+        kws = []
+        for k in node.keywords:
+          if k.arg is None and isinstance(k.value, ast.Dict) and k.value.keys and all(isinstance(x, ast.Constant) and isinstance(x.value, str) and x.value.isidentifier()
+                                                                                     for x in k.value.keys):
+            for kk, vv in zip(k.value.keys, k.value.values):
+              nk = ast.keyword(arg=kk.value, value=vv)
+              ast.copy_location(nk, vv)
+              nk._parent = node
+              vv._parent = nk
+              kws.append(nk)
+          else:
+            kws.append(k)
+        node.keywords = kws
+        n += 1
       for k in node.keywords:
         # pandas axis names: axis='columns' is axis=1, axis='index'/'rows' is axis=0
         if k.arg == 'axis' and isinstance(k.value, ast.Constant) and k.value.value in ('columns', 'index', 'rows'):
